@@ -129,7 +129,9 @@ def gen_case(rng, tier, pid, n):
     elif pid == "C04" and n == 6:
         # a project that lists its elements - the representative metal `M` among them - and declares no pseudo-elements at all
         config = "no-pseudo-list"
-        forced = forced + [netgen.mk([("M", 1)]), netgen.mk([("M", 1)], 1)] + [s for s in pool if s.name in ("H", "H+")]
+        # (without pseudo-elements there are no spin / isomer labels either: `oH2`, `c-C3H2` are not names of this project)
+        pool = [s for s in pool if re.match(r"#?[A-Z]", s.name) or s.kind in ("electron", "grain")]
+        forced = [s for s in forced if s in pool] + [netgen.mk([("M", 1)]), netgen.mk([("M", 1)], 1)] + [s for s in pool if s.name in ("H", "H+")]
         nsp, nre = max(nsp, 5), max(nre, 8)
     elif n > 1 and rng.random() < 0.15:
         config = "isotopes"
